@@ -851,3 +851,23 @@ Proof.
   intros E Hc Hsh HL HR. rewrite (df_join_on_list l r on how_str h E Hc).
   now apply internal_join_rows_match_schema.
 Qed.
+
+(* ------------------------------------------------------------------------------------------ *)
+(** * re-evaluation (definitional in the model: actions are pure and hand the object on unchanged) *)
+Lemma run_action_object j a : fst (run_action j a) = j.
+Proof. reflexivity. Qed.
+
+Lemma run_session_map j acts : run_session j acts = map (fun a => snd (run_action j a)) acts.
+Proof. induction acts as [|a acts IH]; simpl; [reflexivity | now rewrite IH]. Qed.
+
+Lemma run_session_history_free j pre a :
+  run_session j (pre ++ [a]) = run_session j pre ++ [snd (run_action j a)].
+Proof. now rewrite !run_session_map, map_app. Qed.
+
+Lemma run_session_outcomes j acts o :
+  In o (run_session j acts) ->
+  o = ORows j \/ o = OCount (match j with Ok (_, rows) => Ok (length rows) | Err e => Err e end).
+Proof.
+  rewrite run_session_map. intros H. apply in_map_iff in H. destruct H as [a [<- _]].
+  destruct a; simpl; auto.
+Qed.
